@@ -337,10 +337,14 @@ func runFwCase(c fwCase, base string) (mis []fwMis, info map[string]any) {
 				if f != nil {
 					(*f)() // the watcher did not wake up: perform it here
 				} else {
+					// the watcher has taken the operation and is performing it: wait for it (2 s were not enough at load 130: the
+					// history went on while the operation was still to come, and the bookkeeping of the file's content was off)
 					select {
 					case <-fwFired:
 						forced++
-					case <-time.After(2 * time.Second):
+					case <-time.After(30 * time.Second):
+						cancel()
+						return []fwMis{{"harness", "an operation handed to the watcher's hook was not performed within 30 s"}}, info
 					}
 				}
 			}
